@@ -160,15 +160,19 @@ func (p *Promise) MustAwaitSync() value.Value {
 func (p *Promise) RegisterContinuation(continuation *Promise) {
 	p.m.Lock()
 	p.continuations = append(p.continuations, continuation)
+	verifAsync("cont:registered", p, continuation, nil)
 	p.m.Unlock()
 }
 
 func (p *Promise) RegisterContinuationUnsafe(continuation *Promise) {
 	p.continuations = append(p.continuations, continuation)
+	verifAsync("cont:registered", p, continuation, nil)
 }
 
 func (p *Promise) ResolveReject(result, err value.Value) {
+	verifAsync("resolve:enter", p, nil, nil)
 	p.m.Lock()
+	verifAsync("resolve:locked", p, nil, nil)
 
 	queue := p.ThreadPool.TaskQueue
 	p.Body = nil
@@ -176,26 +180,34 @@ func (p *Promise) ResolveReject(result, err value.Value) {
 	p.result = result
 	p.err = err
 	p.wg.Done()
+	verifAsync("resolve:published", p, nil, nil)
 	p.enqueueContinuations(queue)
 
 	p.m.Unlock()
+	verifAsync("resolve:unlocked", p, nil, nil)
 }
 
 func (p *Promise) Resolve(result value.Value) {
+	verifAsync("resolve:enter", p, nil, nil)
 	p.m.Lock()
+	verifAsync("resolve:locked", p, nil, nil)
 
 	queue := p.ThreadPool.TaskQueue
 	p.Body = nil
 	p.ThreadPool = nil
 	p.result = result
 	p.wg.Done()
+	verifAsync("resolve:published", p, nil, nil)
 	p.enqueueContinuations(queue)
 
 	p.m.Unlock()
+	verifAsync("resolve:unlocked", p, nil, nil)
 }
 
 func (p *Promise) Reject(err value.Value, stackTrace *value.StackTrace) {
+	verifAsync("resolve:enter", p, nil, nil)
 	p.m.Lock()
+	verifAsync("resolve:locked", p, nil, nil)
 
 	queue := p.ThreadPool.TaskQueue
 	p.Body = nil
@@ -203,14 +215,18 @@ func (p *Promise) Reject(err value.Value, stackTrace *value.StackTrace) {
 	p.err = err
 	p.stackTrace = stackTrace
 	p.wg.Done()
+	verifAsync("resolve:published", p, nil, nil)
 	p.enqueueContinuations(queue)
 
 	p.m.Unlock()
+	verifAsync("resolve:unlocked", p, nil, nil)
 }
 
 func (p *Promise) enqueueContinuations(queue chan *Promise) {
 	for _, cont := range p.continuations {
+		verifAsync("resolve:enqueue-continuation", p, cont, nil)
 		queue <- cont
+		verifAsync("resolve:enqueued", p, cont, nil)
 	}
 	p.continuations = nil
 }
